@@ -353,10 +353,11 @@ class Timeout(Exception):
 def _alarm(*_):
     raise Timeout()
 signal.signal(signal.SIGALRM, _alarm)
+f(np.array([0, 1], dtype=np.int64), np.array([1, 0], dtype=np.int64))   # compile outside the timed region
 out = []
 for _, p1, p2 in json.load(open(sys.argv[1])):
     try:
-        signal.setitimer(signal.ITIMER_REAL, 2.0)   # interrupts the plain-Python kernel only
+        signal.setitimer(signal.ITIMER_REAL, 10.0)   # interrupts the plain-Python kernel only
         out.append(str(int(f(np.array(p1, dtype=np.int64), np.array(p2, dtype=np.int64)))))
     except IndexError:
         out.append("OOB")
